@@ -30,7 +30,10 @@ TRUSTED = [
     'Coq stdlib ZArith, QArith, Lia, Lqa (theorems closed under the global context)',
 ]
 ASSUMPTIONS = [
-    'djs_reject: the property speaks of limits "in units of the SUPPLIED sigma or 1/sqrt(invvar), or the absolute limit": '
+    'djs_reject: calls with BOTH sigma and invvar are inside: the supplied sigma sets the units and invvar is ignored (documented precedence; '
+    'reject_spec2, C17_reject_sigma_wins); inmask / outmask of integer, float or bool dtype: an entry marks a good point iff it is non-zero '
+    '(any non-zero value is generated; harness glue turns the values into the booleans of the model); '
+    'the property speaks of limits "in units of the SUPPLIED sigma or 1/sqrt(invvar), or the absolute limit": '
     'calls with lower/upper but neither sigma nor invvar (the branch that estimates a standard deviation from the data) are '
     'OUTSIDE the property and are neither generated nor modelled; maxdev-only calls (no sigma, no invvar) ARE inside and '
     'are generated (the estimated sigma is computed by the routine but never used); lower, upper >= 0, maxdev > 0, sigma >= 0, invvar >= 0; maxrej/groupdim/groupsize/groupbadpix '
@@ -53,7 +56,7 @@ ASSUMPTIONS = [
     'caller-owned ndarray arguments must be bit-identical after every call (checked for every call, violation otherwise); a result '
     'that shares memory with an UNMODIFIED argument (djs_maskinterp1 / aesthetics / djs_median return their input when there is '
     'nothing to do) is counted in coverage.argument_checks and not reported; histories of calls on the same arrays are compared '
-    'step by step with the model evaluated on the original values; integer (non-bool) inmask for djs_reject is not generated',
+    'step by step with the model evaluated on the values the arrays hold at that step (the caller may refill an array in place between steps)',
     'floating point: values compared at 1e-12 relative; thresholds are either hit exactly (exact dyadic arithmetic) or '
     'missed by >= 1e-6 relative',
 ]
@@ -164,7 +167,7 @@ def gen_reject(rng, ctx, k):
     maxdev = C.dyadic(rng, 0.25, 6, 3) if rng.random() < 0.4 else None
     if lower is None and upper is None and maxdev is None and rng.random() < 0.8:
         upper = C.dyadic(rng, 0.5, 4, 3)
-    mode = rng.choice(['sigma_scalar', 'sigma_array', 'invvar', 'invvar'])
+    mode = rng.choice(['sigma_scalar', 'sigma_array', 'invvar', 'invvar', 'both_scalar', 'both_array'])
     if rng.random() < 0.12:
         # "or the absolute limit": maxdev alone, neither sigma nor invvar supplied (the routine then estimates a
         # sigma it never uses)
@@ -173,10 +176,10 @@ def gen_reject(rng, ctx, k):
     sq = [0.0, 0.0625, 0.25, 1.0, 2.25, 4.0, 9.0]
     if mode == 'maxdev_only':
         scales = [('s', 0.0)] * n
-    elif mode == 'sigma_scalar':
+    elif mode in ('sigma_scalar', 'both_scalar'):
         s0 = rng.choice([0.0, 1.0, C.dyadic(rng, 0.125, 3, 3)])
         scales = [('s', s0)] * n
-    elif mode == 'sigma_array':
+    elif mode in ('sigma_array', 'both_array'):
         scales = [('s', rng.choice([0.0, 1.0, C.dyadic(rng, 0.125, 3, 3), C.dyadic(rng, 0.125, 3, 3)])) for _ in range(n)]
     else:
         scales = [('i', rng.choice(sq) if rng.random() < 0.5 else C.dyadic(rng, 0, 8, 4)) for _ in range(n)]
@@ -214,12 +217,19 @@ def gen_reject(rng, ctx, k):
          'outmask': None, '_scales': scales, '_mode': mode}
     if mode == 'maxdev_only':
         pass
-    elif mode == 'sigma_scalar':
+    elif mode in ('sigma_scalar', 'both_scalar'):
         c['sigma'] = scales[0][1]
-    elif mode == 'sigma_array':
+    elif mode in ('sigma_array', 'both_array'):
         c['sigma'] = [v for _, v in scales]
     else:
         c['invvar'] = [v for _, v in scales]
+    if mode.startswith('both'):
+        # BOTH keywords in one call, and the invvar is NOT 1/sigma^2 (zeros included): the documented precedence
+        # (sigma sets the units, invvar is ignored) then shows in the mask
+        # (half of the entries are 0 -- the invvar rule could never reject there -- or large -- it would reject almost
+        # any residual --, so that the two rules disagree on many points)
+        c['invvar'] = [rng.choice([0.0, 0.0, 64.0, 256.0, 1024.0]) if rng.random() < 0.5 else
+                       (rng.choice(sq) if rng.random() < 0.5 else C.dyadic(rng, 0, 8, 4)) for _ in range(n)]
     t = rng.random()
     if t < 0.35:
         c['outmask'] = [rng.random() < 0.8 for _ in range(n)]
@@ -232,21 +242,39 @@ def gen_reject(rng, ctx, k):
     return c
 
 
-def reject_term(c, r):
+def reject_term(c, r, call_level=False):
+    """call_level: the keywords as the caller supplied them (sigma and/or invvar, either may be absent), resolved
+    inside Coq -- by the selectors generated from the source in M, by the documented precedence in S"""
     n = len(c['data'])
     inm = c['inmask'] or [True] * n
     outm = c['outmask'] or [True] * n
-    pts = []
-    for i in range(n):
-        kind, v = c['_scales'][i]
-        pts.append('(mkP %s %s (%s %s) %s %s)' % (q(c['data'][i]), q(c['model'][i]), 'Sig' if kind == 's' else 'Ivar', q(v),
-                                                   C.boollit(inm[i]), C.boollit(outm[i])))
     o = '(mkO %s %s %s %s %d%%nat)' % (qopt(c['lower']), qopt(c['upper']), qopt(c['maxdev']), C.boollit(c['sticky']), c['grow'])
     if 'ok' in r:
         e = '(ROk %s %s)' % (blist(r['ok']['mask']), C.boollit(r['ok']['qdone']))
     else:
         e = 'RErr'
+    if call_level:
+        sg, ivg = c.get('sigma') is not None, c.get('invvar') is not None
+        sig = (c['sigma'] if isinstance(c['sigma'], list) else [c['sigma']] * n) if sg else [0.0] * n
+        iv = c['invvar'] if ivg else [0.0] * n
+        qs = ['(mkP2 (mkP %s %s (Sig 0) %s %s) %s %s)' % (q(c['data'][i]), q(c['model'][i]), C.boollit(inm[i]), C.boollit(outm[i]),
+                                                        q(sig[i]), q(iv[i])) for i in range(n)]
+        return '(CReject2 %s %s %s %s %s)' % (o, C.boollit(sg), C.boollit(ivg), C.coq_list(qs), e)
+    pts = []
+    for i in range(n):
+        kind, v = c['_scales'][i]
+        pts.append('(mkP %s %s (%s %s) %s %s)' % (q(c['data'][i]), q(c['model'][i]), 'Sig' if kind == 's' else 'Ivar', q(v),
+                                                   C.boollit(inm[i]), C.boollit(outm[i])))
     return '(CReject %s %s %s)' % (o, C.coq_list(pts), e)
+
+
+def both_discriminates(c):
+    """would measuring in units of 1/sqrt(invvar) give another mask than the supplied sigma does?"""
+    if not c['_mode'].startswith('both'):
+        return False
+    alt = dict(c)
+    alt['_scales'] = [('i', v) for v in c['invvar']]
+    return ref_reject(alt) != ref_reject(c)
 
 
 # ---------------------------------------------------------------- djs_maskinterp
@@ -628,6 +656,14 @@ def sky_terms(c, r, flags):
 
 # ---------------------------------------------------------------- input classes, histories
 
+# the forms of the scalar / mask arguments a caller may use besides the usual ones: integer 0/1 masks (int8 .. uint8;
+# the returned mask then has the integer type and is read by truthiness), int / numpy.bool_ sticky, numpy integer grow,
+# Python int limits and sigma where the value is integral, explicit None for every absent keyword
+LAYOUTS_1D = ['c', 'strided', 'rev', 'be']
+LAYOUTS_ND = ['c', 'f', 't', 'strided', 'rev', 'be']
+REJECT_ARGSTYLES = ['intmask', 'intflags', 'intlimits', 'explicit_none']
+
+
 def pow2(k):
     return k > 0 and (k & (k - 1)) == 0
 
@@ -639,6 +675,34 @@ def decorate(rng, c):
         c['readonly'] = True
     f32 = rng.random() < 0.15
     f = c['f']
+    # memory layout of the array arguments (every array of the call drawn independently): C, Fortran order, transposed
+    # view, strided view of a longer buffer, reversed view -- the answer depends on the VALUES at the subscripts only
+    nd = len(c.get('shape') or [1])
+    if rng.random() < (0.6 if nd >= 2 else 0.3):
+        pool = LAYOUTS_ND if nd >= 2 else LAYOUTS_1D
+        c['layout'] = {k_: rng.choice(pool) for k_ in ('data', 'model', 'sigma', 'invvar', 'inmask', 'outmask', 'y', 'mask', 'xval',
+                                                       'flux', 'xs', 'andmask')}
+    if f == 'reject' and rng.random() < 0.25:
+        c['argstyle'] = rng.choice(REJECT_ARGSTYLES)
+        if c['argstyle'] == 'intmask':
+            # masks of any dtype: a non-zero entry marks a good point (doc: bad points "evaluate to False"), for inmask
+            # and for outmask (sticky, qdone) alike: any non-zero value of the dtype
+            dt = rng.choice(['i1', 'i4', 'i8', 'u1', 'f4', 'f8', 'bool'])
+            c['maskint'] = dt
+            for key in ('inmask', 'outmask'):
+                if c.get(key) is None:
+                    continue
+                if dt == 'bool':
+                    good, zero = [True], [False]
+                elif dt[0] == 'f':
+                    good, zero = [1.0, 1.0, 0.5, 2.0, -1.0, 1e-30], [0.0, -0.0]
+                else:
+                    w = 8 * int(dt[1])
+                    good = [1, 1, 2, 3, 4, 6] + ([-1, -2, -(1 << (w - 1))] if dt[0] == 'i' else [(1 << w) - 1, 1 << (w - 1)])
+                    zero = [0]
+                one = rng.choice(good)
+                pick = (lambda one=one: one) if rng.random() < 0.4 else (lambda good=good: rng.choice(good))
+                c[key + '_values'] = [pick() if b else rng.choice(zero) for b in c[key]]
     if f == 'reject' and f32 and c['_mode'] != 'invvar':
         c['dtypes'] = {'data': 'f4', 'model': 'f4', 'sigma': 'f4'}
     elif f == 'interp':
@@ -656,7 +720,8 @@ def decorate(rng, c):
 
 
 def shared(values, shape, dtype, rng):
-    return {'v': values, 'shape': shape, 'dtype': dtype, 'readonly': rng.random() < 0.15}
+    return {'v': values, 'shape': shape, 'dtype': dtype, 'readonly': rng.random() < 0.15,
+            'layout': rng.choice(['c', 'c'] + (LAYOUTS_ND if len(shape) >= 2 else LAYOUTS_1D))}
 
 
 def gen_history(rng, ctx, k, bits):
@@ -695,8 +760,8 @@ def gen_history(rng, ctx, k, bits):
         n = c['shape'][0]
         arrays['data'] = shared(c['data'], [n], 'd', rng)
         arrays['model'] = shared(c['model'], [n], 'd', rng)
-        scale_key = 'sigma' if isinstance(c.get('sigma'), list) else ('invvar' if c.get('invvar') is not None else None)
-        if scale_key:
+        scale_keys = tuple(k_ for k_ in ('sigma', 'invvar') if isinstance(c.get(k_), list))
+        for scale_key in scale_keys:
             arrays[scale_key] = shared(c[scale_key], [n], 'd', rng)
         if c['inmask'] is not None:
             arrays['inmask'] = shared(c['inmask'], [n], 'bool', rng)
@@ -710,7 +775,7 @@ def gen_history(rng, ctx, k, bits):
                 if c[lim] is not None and rng.random() < 0.3 and c['_mode'] != 'maxdev_only':
                     st[lim] = None
             rf = public(st)
-            for key in ('data', 'model', 'inmask') + ((scale_key,) if scale_key else ()):
+            for key in ('data', 'model', 'inmask') + scale_keys:
                 if key in arrays:
                     rf[key] = {'ref': key}
             if j == 0:
@@ -768,6 +833,22 @@ def gen_history(rng, ctx, k, bits):
             rf['xs'] = {'ref': 'xs'}
             refs.append(rf)
             steps.append(st)
+    # class A: the CALLER refills one of the shared arrays in place between two calls (x[...] = new, or x += delta);
+    # the calls after it are judged on the values the array then holds -- nothing may be remembered per array object
+    field = {'aesth': 'flux', 'interp': 'y', 'median': 'xs', 'sky': 'invvar'}.get(fam)
+    if field and len(steps) >= 2 and rng.random() < 0.6:
+        name = field
+        old = arrays[name]['v']
+        if fam == 'median':
+            new = [rng.randint(-50, 50) / 4.0 for _ in old]
+        elif fam == 'sky':
+            new = [0.0 if rng.random() < 0.1 else C.dyadic(rng, 0.125, 8, 4) for _ in old]
+        else:
+            new = [C.dyadic(rng, -16, 16, 6) for _ in old]
+        k_ = rng.randint(1, len(steps) - 1)
+        for st in steps[k_:]:
+            st[field] = new
+        refs.insert(k_, {'f': 'mutate', 'name': name, 'v': new, 'how': rng.choice(['assign', 'iadd'])})
     return arrays, refs, steps
 
 
@@ -783,6 +864,12 @@ def signature(c, r, verdict):
     if f == 'reject':
         g = c['grow']
         cls = 'grow=0' if g == 0 else ('grow=1' if g == 1 else 'grow>=2')
+        if c['_mode'].startswith('both'):
+            cls += ':sigma+invvar'
+        if c.get('argstyle') == 'intmask':
+            cls = 'intmask-values'
+        elif c.get('argstyle'):
+            cls += ':' + c['argstyle']
     elif f == 'interp':
         cls = ('call:' if '_call' in c else '') + ('xval' if c['xval'] is not None else 'index')
     elif f == 'aesth':
@@ -811,7 +898,7 @@ def correspond(ctx, proof_ok=True):
         raise RuntimeError('C17/Model.v does not build:\n' + log[-2000:])
     rng = ctx.rng
     calls = []                                   # (bits index, call)
-    for k in range(ctx.n(700, 12000)):
+    for k in range(ctx.n(640, 12000)):
         calls.append((0, decorate(rng, gen_reject(rng, ctx, k))))
     for k in range(ctx.n(600, 8000)):
         calls.append((0, decorate(rng, gen_interp(rng, ctx, k))))
@@ -865,7 +952,7 @@ def correspond(ctx, proof_ok=True):
         flags_of[tuple(pl['bits'])] = o['flags']
         if isinstance(part, tuple):
             for h, r in zip(part[1], o['results']):
-                for k, sr in zip(h['members'], r.get('steps', [])):
+                for k, sr in zip(h['members'], [sr_ for sr_ in r.get('steps', []) if not sr_.get('mutate')]):
                     results[k] = sr
             continue
         for k, r in zip(part, o['results']):
@@ -908,7 +995,13 @@ def correspond(ctx, proof_ok=True):
         if r.get('err') == 'NotRun':
             continue
         if f == 'reject':
-            terms.append((ci, 0, reject_term(c, r)))
+            if c['_mode'].startswith('both'):
+                terms.append((ci, 0, reject_term(c, r, call_level=True)))
+            else:
+                terms.append((ci, 0, reject_term(c, r)))
+                if ci % 4 == 0:
+                    # the same call once more with the keywords as supplied (one keyword alone / neither)
+                    terms.append((ci, 1, reject_term(c, r, call_level=True)))
         elif f == 'interp':
             terms.extend((ci, j, t) for j, t in interp_terms(c, r))
         elif f == 'aesth':
@@ -949,7 +1042,10 @@ def correspond(ctx, proof_ok=True):
         'calls_by_function_and_outcome': dist,
         'reject': {'grow': {str(g): sum(1 for c, _ in rej if c['grow'] == g) for g in range(5)},
                    'sticky': sum(1 for c, _ in rej if c['sticky']),
-                   'scale': {m: sum(1 for c, _ in rej if c['_mode'] == m) for m in ('sigma_scalar', 'sigma_array', 'invvar', 'maxdev_only')},
+                   'scale': {m: sum(1 for c, _ in rej if c['_mode'] == m)
+                             for m in ('sigma_scalar', 'sigma_array', 'invvar', 'maxdev_only', 'both_scalar', 'both_array')},
+                   'both_keywords_where_the_invvar_rule_would_give_another_mask': sum(1 for c, _ in rej if both_discriminates(c)),
+                   'argstyle': {a_: sum(1 for c, _ in rej if c.get('argstyle') == a_) for a_ in REJECT_ARGSTYLES},
                    'qdone_true': sum(1 for _, r in rej if 'ok' in r and r['ok']['qdone']),
                    'with_rejections': sum(1 for _, r in rej if 'ok' in r and not all(r['ok']['mask'])),
                    'ndim>1': sum(1 for c, _ in rej if len(c['shape']) > 1)},
@@ -1015,6 +1111,8 @@ def correspond(ctx, proof_ok=True):
         'read_only_arguments': sum(1 for _, c in calls if c.get('readonly')) + sum(1 for h in histories for a_ in h['arrays'].values() if a_['readonly']),
         'float32_calls': sum(1 for _, c in calls if c.get('dtypes')) + sum(1 for h in histories if any(a_['dtype'] == 'f4' for a_ in h['arrays'].values())),
         'histories': len(histories), 'history_steps': sum(len(h['members']) for h in histories),
+        'histories_with_an_array_refilled_in_place_by_the_caller': sum(1 for h in histories if any(st.get('f') == 'mutate' for st in h['steps'])),
+        'layouts': {l_: sum(1 for _, c in calls if isinstance(c.get('layout'), dict) and l_ in c['layout'].values()) for l_ in LAYOUTS_ND},   # 'be' = non-native byte order
         'note': 'a result that shares memory with an UNMODIFIED argument (the routine returned its input because there was nothing to do) '
                 'is counted here and not reported; a modified argument is a violation'}
     # one violation per signature, smallest input first
@@ -1057,7 +1155,7 @@ def replay(ctx, rep):
     h = rep.get('history')
     if h:
         out = C.run_impl('c17_impl.py', {'bits': rep.get('bits', [27, 28]), 'calls': [{'f': 'history', 'arrays': h['arrays'], 'steps': h['steps']}]})
-        steps = out['results'][0].get('steps', [])
+        steps = [sr_ for sr_ in out['results'][0].get('steps', []) if not sr_.get('mutate')]
         print('history:', h['steps'])
         out = {'results': [steps[h['step']] if h['step'] < len(steps) else None]}
         print('step   :', h['step'])
